@@ -15,19 +15,50 @@
      round trips return the value and use exactly 4+n+pad bytes; no read buffer exceeds the documented limit; a declared
      length above the limit is an error with a small allocation volume; accepted values respect the limits and are
      the bytes of the input; fragmentations reassemble; writer output parses into fragments <= max and reads back. *)
-From Coq Require Import String Ascii.
+From Coq Require Import PrimInt63.
 From Coq Require Import List NArith ZArith Bool.
 From Verif Require Import Gen.Facts Model.Bytes Model.Xdr Model.Rpc Model.RecordMark Corr.Common.
 Import ListNotations.
 Open Scope N_scope.
 
-(* ---- hex strings keep the case files small ---- *)
-Definition hexval (a : ascii) : N := let n := N_of_ascii a in if n <? 58 then n - 48 else n - 87.
-Fixpoint H (s : string) : bytes :=
-  match s with
-  | String a (String b r) => (16 * hexval a + hexval b) :: H r
-  | _ => []
+(* ---- compact literals.  Coq 8.16 spends ~2 ms on an N literal and ~0.1 ms per character of a string literal, but
+   ~0.02 ms on a primitive-integer literal: the driver prints every number as an [int] and every byte string as a
+   length plus 7-byte big-endian words; [n], [ns], [B] turn them into the model's N / bytes. ---- *)
+Fixpoint i2n_rec (k : nat) (i : int) : N :=
+  match k with
+  | O => 0
+  | S k' => if PrimInt63.eqb i 0%uint63 then 0
+            else (if PrimInt63.eqb (PrimInt63.land i 1%uint63) 1%uint63 then 1 else 0) +
+                 2 * i2n_rec k' (PrimInt63.lsr i 1%uint63)
   end.
+Definition n (i : int) : N := i2n_rec 63 i.
+Definition n2 (hi lo : int) : N := n hi * 4294967296 + n lo.        (* values from 2^62 up, as two 32-bit halves *)
+Definition ns (l : list int) : list N := map n l.
+Fixpoint wb (k : nat) (w : int) (acc : bytes) : bytes :=            (* the k low bytes of w, most significant first *)
+  match k with
+  | O => acc
+  | S k' => wb k' (PrimInt63.lsr w 8%uint63) (n (PrimInt63.land w 255%uint63) :: acc)
+  end.
+Fixpoint unpack (len : N) (ws : list int) : bytes :=
+  match ws with
+  | [] => []
+  | w :: r => if 7 <=? len then wb 7 w (unpack (len - 7) r) else wb (N.to_nat len) w []
+  end.
+Definition B (len : int) (ws : list int) : bytes := unpack (n len) ws.
+
+(* large random contents are not printed: the driver and this file share a linear congruential generator *)
+Fixpoint prg (nulfree : bool) (k : nat) (x : int) : bytes :=       (* x < 2^31, so the product stays below 2^63 *)
+  match k with
+  | O => []
+  | S k' => let x' := PrimInt63.land (PrimInt63.add (PrimInt63.mul x 1103515245%uint63) 12345%uint63) 2147483647%uint63 in
+            let hi := PrimInt63.lsr x' 16%uint63 in
+            n (if nulfree then PrimInt63.add 1%uint63 (PrimInt63.mod hi 255%uint63) else PrimInt63.land hi 255%uint63)
+              :: prg nulfree k' x'
+  end.
+Definition G (seed len : int) : bytes := prg false (N.to_nat (n len)) seed.
+Definition Gn (seed len : int) : bytes := prg true (N.to_nat (n len)) seed.
+Definition Sl (off len : int) (b : bytes) : bytes := take (n len) (drop (n off) b).
+Definition cat (l : list bytes) : bytes := List.concat l.
 
 Record obs (A : Type) := mkObs { ob_val : option A; ob_used : N; ob_reads : list N; ob_alloc : N }.
 Arguments mkObs {A}.
